@@ -28,6 +28,7 @@ import (
 	"github.com/evolbioinfo/goalign/io/clustal"
 	"github.com/evolbioinfo/goalign/io/fasta"
 	"github.com/evolbioinfo/goalign/io/nexus"
+	"github.com/evolbioinfo/goalign/io/paml"
 	"github.com/evolbioinfo/goalign/io/partition"
 	"github.com/evolbioinfo/goalign/io/phylip"
 	"github.com/evolbioinfo/goalign/io/stockholm"
@@ -95,6 +96,8 @@ func writeFmt(format string, w wopts, al align.Alignment) string {
 		return clustal.WriteAlignment(al)
 	case "stockholm":
 		return stockholm.WriteAlignment(al)
+	case "paml":
+		return paml.WriteAlignment(al)
 	}
 	panic("harness: unknown format " + format)
 }
